@@ -468,14 +468,17 @@ def explained_by_lost_hint(f, r):
     tree (its anchor text is gone) and, on the unchanged tree, the obligation's proof NEEDS that hint (hint_deps.json,
     computed by tools/hint_deps.py by leaving each hint out in turn).  Returns the reason, or None when no lost hint
     explains the failure (then it is a violation).  A lost `replace` is not a lost proof: the text it would have rewritten
-    is simply absent and the function was verified as it stands."""
+    is simply absent and the function was verified as it stands; the same holds for the contract of a closure that is gone
+    when every closure still in the function has its contract."""
     global _HINT_DEPS
     lost = []
     for rep in r.get("report", []):
         if not isinstance(rep, dict) or rep.get("item") != f.get("fn"):
             continue
         for w in rep.get("rewrites", []):
-            if w.startswith("LOST") and "LOST: replace:" not in w:
+            # not a lost proof: a `replace` whose text is absent; a `local` alias whose binder changed shape (the hints were
+            # placed under the old name and type-checked); the contract of a closure that no longer exists
+            if w.startswith("LOST") and "LOST: replace:" not in w and not w.startswith("LOST: local ") and "closures left without a contract in the function: 0)" not in w:
                 lost.append(w)
     if not lost:
         return None
